@@ -1530,7 +1530,10 @@ def ubound(t):
         hi = t[2][3]
         x = t[3]
         if hi is slice_(add(x, const(w, (1 << k) - 1)), k, w - k):
-            return (1 << k) - 1
+            tz = 0
+            if x[0] == "concat" and is_zero(x[2]):
+                tz = min(x[2][1], k)
+            return (1 << k) - (1 << tz)
     if t[0] == "select":
         a, b = ubound(t[3]), ubound(t[4])
         if a is not None and b is not None:
